@@ -86,7 +86,7 @@ def shards(tier):
     return out
 
 
-def expected_lines(tree, syntax, indent, depth=0, parent_name='', out=None):
+def expected_lines(tree, syntax, indent, depth=0, parent_name='', out=None, upper=False):
     if out is None:
         out = []
     for label, ch, _ in tree:
@@ -103,6 +103,8 @@ def expected_lines(tree, syntax, indent, depth=0, parent_name='', out=None):
         attrs = k.get('attrs') or []
         if attrs:
             def part(a, v):
+                if upper:
+                    a = a.upper()           # output.attributeCase applies to the names in the attribute list, never to #id / .class
                 if isinstance(v, tuple) and v[0] == 'bool':
                     return a + '=true' if syntax == 'haml' else a
                 if isinstance(v, tuple):
@@ -131,7 +133,7 @@ def expected_lines(tree, syntax, indent, depth=0, parent_name='', out=None):
                     extra.append(indent * (depth + 1) + '| ' + t)
         out.append((indent * depth + line).rstrip())
         out += [e.rstrip() for e in extra]
-        expected_lines(ch, syntax, indent, depth + 1, name, out)
+        expected_lines(ch, syntax, indent, depth + 1, name, out, upper)
     return out
 
 
@@ -204,6 +206,15 @@ def check(seq, labels, syntax, indent):
             bad.append(('lines:differ-under-the-xhtml-style', dict(abbr=abbr, syntax=syntax, html_style=out[:200], xhtml_style=out3[:200])))
     except Exception as e:
         bad.append(('exception-xhtml-style:%s' % type(e).__name__, str(e)[:120]))
+    # output.attributeCase changes the names in the attribute list only: #id and .class stay shorthands, `div` stays omitted
+    try:
+        out4 = expand(abbr, {'syntax': syntax, 'options': {'output.indent': indent, 'inlineElements': [], 'output.attributeCase': 'upper'}})
+        exp4 = expected_lines(tree, syntax, indent, upper=True)
+        got4 = [l.rstrip() for l in out4.split('\n')]
+        if got4 != exp4:
+            bad.append(('lines:attribute-case-upper', dict(abbr=abbr, syntax=syntax, expected=exp4[:12], got=got4[:12])))
+    except Exception as e:
+        bad.append(('exception-attribute-case:%s' % type(e).__name__, str(e)[:120]))
     # formatting must not consume the parsed tree: the same tree formatted twice (and as HTML afterwards) gives the same text
     try:
         cfg = Config({'syntax': syntax, 'options': {'output.indent': indent, 'inlineElements': []}})
